@@ -68,11 +68,18 @@ pub struct Context<A> {
     pub(crate) tasks: Vec<futures::future::AbortHandle>,
 }
 
-impl<A> Drop for Context<A> {
-    fn drop(&mut self) {
+impl<A> Context<A> {
+    /// Abort every timer / task that was spawned through this context.
+    pub(crate) fn abort_tasks(&mut self) {
         for task in self.tasks.drain(..) {
             task.abort();
         }
+    }
+}
+
+impl<A> Drop for Context<A> {
+    fn drop(&mut self) {
+        self.abort_tasks();
     }
 }
 
